@@ -7,6 +7,7 @@ import Enc.Props.C16
 import Enc.Props.C18
 import Enc.Props.C05
 import Enc.Props.C11
+import Enc.Props.C17
 import Enc.Driver.Json
 import Enc.Props.C04
 import Enc.Props.C08
